@@ -315,10 +315,17 @@ pub fn single_preemptions(steps: u64, budget: usize) -> (Vec<Sched>, bool)
     }
     else
     {
-        for k in 0..budget as u64
+        // over budget: every step with the first alternative thread first, then the second, ...
+        'outer: for c in 0..per_step
         {
-            let idx = k * total / budget as u64;
-            v.push(Sched::PreemptAt { highest: false, points: vec![(1 + idx / per_step, (idx % per_step) as u16)] });
+            for s in 1..=steps
+            {
+                if v.len() >= budget
+                {
+                    break 'outer;
+                }
+                v.push(Sched::PreemptAt { highest: false, points: vec![(s, c as u16)] });
+            }
         }
         (v, false)
     }
@@ -511,6 +518,10 @@ fn prefix() -> impl Strategy<Value = Vec<Op>>
         2 => any::<u16>().prop_map(|rule| vec![Op::Build { goal: None }, Op::Retag { rule }]),
         3 => (any::<u16>(), 0u8..5).prop_map(|(leaf, content)| vec![Op::Build { goal: None }, Op::Edit { leaf, content }, Op::Build { goal: None }, Op::Revert { leaf }]),
         2 => (any::<u16>(), 0u8..5).prop_map(|(leaf, content)| vec![Op::Build { goal: None }, Op::Edit { leaf, content }, Op::Build { goal: None }, Op::Clean { goal: None }, Op::Revert { leaf }]),
+        // one rule displaces content that another rule wants back in the same build
+        3 => (any::<u16>(), 0u8..5, any::<u16>(), 0u8..5).prop_map(|(l1, c1, l2, c2)| vec![Op::Build { goal: None }, Op::Edit { leaf: l1, content: c1 }, Op::Build { goal: None },
+            Op::Edit { leaf: l2, content: c2 }, Op::Revert { leaf: l1 }]),
+        2 => (any::<u16>(), any::<u16>()).prop_map(|(a, b)| vec![Op::Build { goal: None }, Op::Swap { a, b }, Op::Build { goal: None }, Op::Swap { a, b }]),
         3 => gen::ops(OpMix { rule_edits: true, ruler_dir_damage: false, cleans: true, delete_leaf: false, swaps: 1 }, 6),
     ]
 }
@@ -535,7 +546,23 @@ pub fn strategy(which: Which, max_rules: usize, extra_scheds: usize) -> impl Str
         proptest::collection::vec(gen::sched(), extra_scheds..=extra_scheds),
     ).prop_map(move |(mut graph, prefix, fail, missing, goal, clean, scheds)|
     {
-        if which == Which::C06
+        if which == Which::C06 && graph.name_seed % 2 == 0
+        {
+            // directed shape: few leaves with equal contents, every rule copies one leaf to each of its targets, so that what
+            // one rule displaces is byte-identical to what another rule wants back
+            graph.n_leaves = 2 + (graph.name_seed / 2 % 2) as u8;
+            let c0 = graph.leaf_contents.get(0).cloned().unwrap_or(0);
+            for c in graph.leaf_contents.iter_mut() { *c = c0; }
+            graph.rules.truncate(4);
+            for (i, r) in graph.rules.iter_mut().enumerate()
+            {
+                r.kinds = vec![2, 2, 2];
+                r.srcs = vec![((i as u32 * 65536 / graph.n_leaves as u32 + 100) % 65536) as u16];
+                r.failon = None;
+                r.n_targets = r.n_targets.min(2);
+            }
+        }
+        else if which == Which::C06
         {
             // bias: byte-identical outputs of unrelated rules (copy/const kinds) so cache entries are shared
             for r in graph.rules.iter_mut()
